@@ -773,7 +773,7 @@ def swap_gate(a, axes, charge=None) -> 'Tensor':
             charge = (charge,) * len(axes)
         charges = ()
         for t, ax in zip(charge, axes):
-            charges += t * a.mfs[ax][0]
+            charges += tuple(t) * a.mfs[ax][0]
         axes, = _unpack_axes(a.mfs, axes)
         axes = tuple(a.trans[ax] for ax in axes)
         negate_slices = _meta_swap_gate_charge(a.struct.t, a.slices, charges, a.ndim_n, nsym, axes, fss)
